@@ -82,6 +82,14 @@ def generate(rng, tier):
     cfg['n_modules'] = (1, 2)
     cfg['n_funcs'] = (1, 3)
     cfg['forms'] = ['assign', 'assign', 'assign', 'expr', 'print', 'emit', 'emit', 'for', 'with', 'semi', 'callmod', 'comment']
+    flavour = rng.choice(['plain', 'plain', 'plain', 'async', 'global_exec'])
+    if flavour == 'async':
+        # doctests that await, some leaving a background task pending when a part ends
+        cfg['async_forms'] = ['await', 'awaitprint', 'bgtask', 'bgtask', 'gather']
+        cfg['p_async'] = 0.5
+    if flavour == 'global_exec':
+        # every doctest of the run starts from a preamble that makes a fresh object
+        cfg['forms'] = cfg['forms'] + ['regappend', 'regappend', 'regappend']
     world = gen.gen_world(rng, cfg)
     n = 0
     for dtid, dt, mod in W.iter_doctests(world):
@@ -113,10 +121,21 @@ def generate(rng, tier):
             d = rng.choice(ids)
             ops.append({'op': 'runner', 'target': [m['relpath'] for m in world['modules'] if d.startswith(m['name'] + '::')][0],
                         'command': d.split('::')[1], 'verbose': rng.choice([0, 3])})
+    if flavour == 'global_exec':
+        for op in ops:
+            op['config'] = {'global_exec': 'SIMREG = []'}
     ops.append({'op': 'probe'})
     plan = []
     execs = common.predicted_execs(world, ops)
     used = set()
+    if flavour == 'async':
+        # some awaits take (virtually) long: whatever else is still pending on the loop gets its turn
+        for dtid, k, opidx in execs:
+            if rng.random() < 0.4:
+                aw = [p for p in common.points_of(world, dtid) if p['form'] in ('await', 'awaitprint') or (p['form'] == 'bgtask' and p['j'] == 2)]
+                if aw and (dtid, k) not in used:
+                    used.add((dtid, k))
+                    plan.append({'dt': dtid, 'k': k, 'pid': rng.choice(aw)['pid'], 'kind': 'sleep', 'delay': rng.choice([7200, 86400])})
     n_faults = rng.choice([0, 1, 1, 2, 3])
     for _ in range(n_faults):
         dtid, k, opidx = rng.choice(execs)
@@ -168,9 +187,11 @@ def generate(rng, tier):
             says = [p for p in common.points_of(world, dtid) if p['form'] == 'say']
             if says:
                 plan.append({'dt': dtid, 'k': k, 'pid': says[0]['pid'], 'kind': 'mute'})
+    env = {'listing_seed': rng.randint(0, 99)}
+    if rng.random() < 0.2:
+        env['pkgroot_on_path'] = rng.choice([0, 1])
     return {'profile': ID, 'world': world, 'ops': ops, 'plan': plan, 'render': True,
-            'recollect_after_propagation': True,
-            'env': {'listing_seed': rng.randint(0, 99)}}
+            'recollect_after_propagation': True, 'env': env}
 
 
 N_SWEEPS_THOROUGH = 150
@@ -204,6 +225,9 @@ def sweep(rng, h):
                     v['ops'] = [{'op': 'run_obj', 'dt': a, 'verbose': verbose, 'on_error': oe, 'mode': mode},
                                 {'op': 'run_obj', 'dt': b, 'verbose': verbose, 'on_error': 'return', 'mode': mode},
                                 {'op': 'probe'}]
+                    if base['ops'][0].get('config'):
+                        for o_ in v['ops'][:2]:
+                            o_['config'] = dict(base['ops'][0]['config'])
                     v['plan'] = list(imports)
                     if fk is not None:
                         v['plan'].append(dict(fk, dt=a, k=0, pid=pts[-1]['pid']))
